@@ -425,6 +425,7 @@ import fam_keepalive, fam_wake, fam_tls
 FAMILY["C16"] = fam_keepalive.check
 FAMILY["C12"] = fam_wake.check
 FAMILY["C17"] = fam_tls.check
-import fam_gate, fam_retry
+import fam_gate, fam_retry, fam_tunnel
 FAMILY["C14"] = fam_gate.check
 FAMILY["C19"] = fam_retry.check
+FAMILY["C01"] = fam_tunnel.check
